@@ -103,6 +103,9 @@ func evalC04(c *engine.Case) engine.Verdict {
 					}
 				}
 			}
+			if msg := w.RetainedMismatch(); msg != "" {
+				v.Failf("call %d: %s", call, msg)
+			}
 			if rep == 0 && call == 0 {
 				switch {
 				case failedAt >= 0 && o.Events[failedAt].Func == engine.TargetID:
